@@ -1093,3 +1093,54 @@ Proof.
   destruct (H (or_introl eq_refl)) as [_ [_ [[E _]|[m [Hin [Hl _]]]]]]; [discriminate E|].
   destruct Hin as [<-|[<-|[]]]; discriminate Hl.
 Qed.
+
+(* ------------------------------------------------------------------------------------------ *)
+(* headline restatements for the clause map (lib/clauses.d/C11.md)                            *)
+(* ------------------------------------------------------------------------------------------ *)
+(* "executed with the identity authenticated on the connection it arrived on": every row of the server's table whose
+   effect touches client-owned state or another client acts with conn_identity; the other rows touch nothing at all *)
+Lemma acting_is_connection_identity :
+  forall r, In r (current_table ++ [aux_row_current]) ->
+  (stateless (r_eff r) = false -> forall w k cl, acting r w k cl = conn_identity w k) /\
+  (stateless (r_eff r) = true -> forall p a w k c, exists b, run (r_eff r) p a w k c = mk b w).
+Proof.
+  intros r Hin.
+  assert (Hr : row_sound r = true).
+  { pose proof current_table_with_notify_sound as Hs. unfold sound_table in Hs. rewrite forallb_forall in Hs. now apply Hs. }
+  split.
+  - intros S w k cl. now apply sound_acting.
+  - intros S p a w k c. now apply run_stateless.
+Qed.
+
+Lemma find_row_cmd tbl t b r : find_row tbl t b = Some r -> r_cmd r = t.
+Proof.
+  induction tbl as [|x tbl IH]; cbn [find_row]; intro H; [discriminate|].
+  destruct ((r_cmd x =? t) && resp_matches (r_resp x) b) eqn:E.
+  - injection H as <-. apply andb_prop in E. destruct E as [E _]. now apply N.eqb_eq in E.
+  - now apply IH.
+Qed.
+
+(* "refused on unauthenticated connections", literally: the commands behind an explicit authentication gate are answered
+   with failure (success flag false), besides being inert (unauth_refused) *)
+Definition gated_types : list N := [50; 70; 71; 72; 74; 75; 76; 85; 90; 102; 110].
+Definition gate_row_ok (r : row) : bool :=
+  implb (memN (r_cmd r) gated_types)
+        (r_auth r && id_is_conn r && match r_eff r with EDnsForward => false | _ => true end).
+
+Lemma gated_rows_ok : forallb gate_row_ok (current_table ++ [aux_row_current]) = true.
+Proof. vm_compute. reflexivity. Qed.
+
+Lemma unauth_answered_with_failure :
+  forall w k cl c, conn_identity w k = 0 -> In (k_type c) gated_types ->
+  res_ok (exec (current_table ++ [aux_row_current]) w k cl c) = false.
+Proof.
+  intros w k cl c Hid Hty. unfold exec.
+  destruct (find_row (current_table ++ [aux_row_current]) (k_type c) (k_resp c)) as [r|] eqn:F; [|reflexivity].
+  pose proof (find_row_in _ _ _ _ F) as Hin. pose proof (find_row_cmd _ _ _ _ F) as Hc.
+  pose proof gated_rows_ok as Hg. rewrite forallb_forall in Hg. specialize (Hg r Hin).
+  unfold gate_row_ok in Hg. rewrite Hc in Hg. apply memN_In in Hty. rewrite Hty in Hg. cbn [implb] in Hg.
+  apply andb_prop in Hg. destruct Hg as [Hg He]. apply andb_prop in Hg. destruct Hg as [Ha Hi].
+  destruct (r_route r); [reflexivity| |];
+    (unfold acting; unfold id_is_conn in Hi; destruct (r_id r); try discriminate Hi;
+     rewrite Ha, Hid; cbn [andb N.eqb]; destruct (r_eff r); try discriminate He; reflexivity).
+Qed.
